@@ -225,6 +225,76 @@ theorem no_tombstone_between_operations (own : Owner) (beh : Behaviour) (hb : No
   exact ⟨(this.2 hnd).2, (this.2 hnd).no_tombstones⟩
 
 
+/-! ### fire_order -/
+
+/-- **One occurrence**: a call of `tickit_bindings_run_event` (`wf = false`) or `…_whilefalse` (`wf = true`) for event
+    `ev`, in any state `st` satisfying the invariant (so: at top level or from inside handlers at any depth), that
+    returns `r` in state `st'`.  Its occurrence number is `o = st.nextOcc`; `seg` is what it appended to the trace
+    between its `occBegin` and `occEnd`; `A` are the bindings appended to the chain meanwhile.  Then
+    1. the chain it walked, `keys st.list ++ A`, has no repetition, and the bindings it delivered to
+       (`firesOf o seg`, in time order) form a sub-sequence of it: *list order, each at most once* — also for bindings
+       bound during the occurrence;
+    2. every delivery went to a binding that was, at that moment, live and bound to `ev`;
+    3. a binding of the chain that got no delivery was not live-and-bound-to-`ev` at the moment any binding *after* it
+       in the chain got one (i.e. when the walker passed it), nor — unless a handler claimed the event
+       (`wf ∧ r ≠ 0`) — at the end of the occurrence.
+    So the bindings live for `ev` at the start and still live when reached are delivered to exactly once, in chain
+    order (`fire_exactly_once`); and the chain is in binding order, `FIRST` binds ahead (`chain_in_binding_order`). -/
+def FireOrderStmt (cfg : Cfg) : Prop :=
+  ∀ own beh, NoDestroy beh → ∀ fuel wf ev st st' r, Tickit.Bindings.Inv st →
+    exec cfg own beh fuel (.runEvent wf ev) st = .ok (st', r) →
+    ∃ seg A, st'.log = Ev.occEnd st.nextOcc :: (seg ++ Ev.occBegin st.nextOcc ev wf :: st.log) ∧
+      (keys st.list ++ A).Nodup ∧
+      (firesOf st.nextOcc seg).Sublist (keys st.list ++ A) ∧
+      (∀ c s1 s2, seg = s2 ++ Ev.fire c st.nextOcc :: s1 → evLive ev (s1 ++ Ev.occBegin st.nextOcc ev wf :: st.log) c) ∧
+      (∀ b ∈ keys st.list ++ A, b ∉ firesOf st.nextOcc seg →
+        (∀ c s1 s2, seg = s2 ++ Ev.fire c st.nextOcc :: s1 → c ∈ afterK b (keys st.list ++ A) →
+            ¬ evLive ev (s1 ++ Ev.occBegin st.nextOcc ev wf :: st.log) b) ∧
+        (¬ (wf = true ∧ r ≠ 0) → ¬ evLive ev (seg ++ Ev.occBegin st.nextOcc ev wf :: st.log) b))
+
+theorem fire_order : FireOrderStmt Cfg.repaired := by
+  intro own beh hb fuel wf ev st st' r h hex
+  exact runEvent_spec own beh hb h hex
+
+theorem evLive_cons_occBegin {ev : Int} {log : List Ev} {k o : Nat} {ev' : Int} {wf : Bool} :
+    evLive ev (Ev.occBegin o ev' wf :: log) k ↔ evLive ev log k := by
+  unfold evLive
+  rw [liveAt_cons (by simp [Ev.affects])]
+  simp
+
+/-- Exactly once: a binding live for the event when the occurrence starts and still live for it when the occurrence
+    ends (no handler having claimed the event) was delivered to exactly once in it. -/
+theorem fire_exactly_once (own : Owner) (beh : Behaviour) (hb : NoDestroy beh) (fuel : Nat) (wf : Bool) (ev : Int)
+    (st st' : St) (r : Int) (h : Tickit.Bindings.Inv st)
+    (hex : exec Cfg.repaired own beh fuel (.runEvent wf ev) st = .ok (st', r)) :
+    ∃ seg, st'.log = Ev.occEnd st.nextOcc :: (seg ++ Ev.occBegin st.nextOcc ev wf :: st.log) ∧
+      ∀ b, evLive ev st.log b → evLive ev (seg ++ Ev.occBegin st.nextOcc ev wf :: st.log) b → ¬ (wf = true ∧ r ≠ 0) →
+        (firesOf st.nextOcc seg).count b = 1 := by
+  obtain ⟨seg, A, hlog, hnd, hsub, _, hcomp⟩ := runEvent_spec own beh hb h hex
+  refine ⟨seg, hlog, fun b hl0 hl1 hncl => ?_⟩
+  have hbk : b ∈ keys st.list := by
+    obtain ⟨x, hx, hxk, _⟩ := (h.liveIff b).2 hl0.1
+    exact mem_keys.2 ⟨x, hx, hxk⟩
+  have hmem : b ∈ firesOf st.nextOcc seg := by
+    apply Classical.byContradiction
+    intro hnf
+    exact (hcomp b (List.mem_append_left _ hbk) hnf).2 hncl hl1
+  rw [List.Nodup.count (hsub.nodup hnd), if_pos hmem]
+
+/-- The chain is in binding order: it is a sub-sequence of the sequence obtained from the bind events by putting
+    `TICKIT_BIND_FIRST` binds at the front and the others at the back (which has no repetition). -/
+theorem chain_in_binding_order (own : Owner) (beh : Behaviour) (hb : NoDestroy beh) (fuel : Nat) (ops : List Op) (st : St)
+    (hops : ValidOps ops) (hnd : Op.destroy ∉ ops) (hr : Runs Cfg.repaired own beh fuel ops st) :
+    (keys st.list).Sublist (bindOrder st.log) ∧ (bindOrder st.log).Nodup := by
+  have := execOps_good own beh hb fuel ops St.init hops Top.init
+  rw [hr] at this
+  exact ⟨(this.2 hnd).1.order, (bindOrder_nodup this.1).1⟩
+
+/-- …and this holds in every state a task runs in (any nesting depth), being part of the invariant. -/
+theorem chain_in_binding_order_inv (st : St) (h : Tickit.Bindings.Inv st) :
+    (keys st.list).Sublist (bindOrder st.log) ∧ (bindOrder st.log).Nodup :=
+  ⟨h.order, (bindOrder_nodup h.trace).1⟩
+
 /-! ### the unchanged code violates the clauses: counterexample theorems
 
 Each history below is the minimal replay stored under `corpus/C16/`; the real library reproduces every one of
@@ -370,5 +440,22 @@ example :
         | .ok st' => some (keys st.list, enters (st'.log.take (st'.log.length - st.log.length)))
         | _ => none)
      | _ => none) = some ([3, 0, 1, 2], [(1, 6), (0, 6), (3, 6)]) := by decide
+
+/-- handler 0, when first run, unbinds slot 1 and binds handler 3 at the back -/
+def behMutate : Behaviour := fun h n => if h = 0 ∧ n = 0 then ⟨[.unbind 1, .bind 1 false plain 3], 0⟩ else ⟨[], 0⟩
+
+theorem noDestroy_behMutate : NoDestroy behMutate := by intro h n; unfold behMutate; split <;> simp
+
+/-- three bindings of event 1: slots 0 and 1 at the back, slot 2 `FIRST` -/
+def stThree : St := bindEvent (bindEvent (bindEvent St.init 1 false plain 0) 1 false plain 1) 1 true plain 2
+
+theorem inv_stThree : Tickit.Bindings.Inv stThree := ((Inv.init.of_bind _ _ _ _).of_bind _ _ _ _).of_bind _ _ _ _
+
+/-- `fire_order` is not vacuous: from the chain [2, 0, 1] an occurrence whose second handler unbinds the third binding
+    and appends a fourth delivers to 2, 0 and the new binding 3 — not to 1. -/
+example :
+    (match exec Cfg.repaired Owner.pen behMutate 50 (.runEvent false 1) stThree with
+     | .ok (st', _) => some (keys stThree.list, firesOf stThree.nextOcc st'.log, keys st'.list)
+     | _ => none) = some ([2, 0, 1], [2, 0, 3], [2, 0, 3]) := by decide
 
 end Tickit.Props.C16
